@@ -163,6 +163,75 @@ func extractCFHeaders() {
 		shape["resolveSanityOnWholeLists"] = n == 2 && whole
 	}
 
+	// resolveConflict: the hard-coded-checkpoint pass ranges over every peer's WHOLE list
+	// (index 0 onwards): the innermost loop around chainsync.ValidateCFHeader is a
+	// `range` statement over the value variable of a `range checkpoints` statement
+	if fd := funcDecl(f, "blockManager", "resolveConflict"); fd != nil {
+		whole := false
+		ast.Inspect(fd.Body, func(n ast.Node) bool {
+			outer, ok := n.(*ast.RangeStmt)
+			if !ok || nospace(src(outer.X)) != "checkpoints" || outer.Value == nil {
+				return true
+			}
+			val := nospace(src(outer.Value))
+			for _, st := range outer.Body.List {
+				inner, ok := st.(*ast.RangeStmt)
+				if !ok || nospace(src(inner.X)) != val {
+					continue
+				}
+				if strings.Contains(nospace(src(inner.Body)), "chainsync.ValidateCFHeader(") {
+					whole = true
+				}
+			}
+			return true
+		})
+		// and no other loop form around the call
+		nFor := 0
+		ast.Inspect(fd.Body, func(n ast.Node) bool {
+			if fs, ok := n.(*ast.ForStmt); ok && strings.Contains(nospace(src(fs.Body)), "chainsync.ValidateCFHeader(") {
+				nFor++
+			}
+			return true
+		})
+		l.def("hardScanWholeLists", "Bool", lbool(whole && nFor == 0),
+			"resolveConflict validates every index (from 0) of every peer's checkpoint list against the hard-coded checkpoints: `for peer, cp := range checkpoints { for i, header := range cp { … chainsync.ValidateCFHeader …`")
+		shape["hardScanWholeLists"] = whole && nFor == 0
+	}
+
+	// cfHandler: the checkpointed phase is entered whenever the block tip has reached the
+	// first checkpoint interval (whatever the filter tip), and getCheckpointedCFHeaders is
+	// called unconditionally after it
+	if fd := funcDecl(f, "blockManager", "cfHandler"); fd == nil {
+		fail("blockmanager.go: method blockManager.cfHandler")
+	} else {
+		cond := ""
+		ast.Inspect(fd.Body, func(n ast.Node) bool {
+			fs, ok := n.(*ast.ForStmt)
+			if ok && fs.Cond != nil && strings.Contains(nospace(src(fs.Body)), "b.resolveConflict(") &&
+				!strings.Contains(nospace(src(fs.Cond)), "b.resolveConflict(") {
+				if cond == "" {
+					cond = nospace(src(fs.Cond))
+				}
+			}
+			return true
+		})
+		if cond == "" {
+			fail("blockmanager.go: cfHandler: the loop around b.resolveConflict")
+		}
+		uncond := false
+		for _, st := range fd.Body.List {
+			if es, ok := st.(*ast.ExprStmt); ok && strings.HasPrefix(nospace(src(es.X)), "b.getCheckpointedCFHeaders(") {
+				uncond = true
+			}
+		}
+		l.def("checkpointedPhaseCond", "String", "\""+cond+"\"",
+			"condition of cfHandler's loop around resolveConflict: the checkpointed phase is entered iff the block tip has reached the first checkpoint interval")
+		shape["checkpointedPhaseCond"] = cond
+		l.def("checkpointedFetchUnconditional", "Bool", lbool(uncond),
+			"cfHandler calls getCheckpointedCFHeaders as a statement of its own body (not under a condition)")
+		shape["checkpointedFetchUnconditional"] = uncond
+	}
+
 	// resolveFilterMismatchFromBlock
 	if fd := funcDecl(f, "", "resolveFilterMismatchFromBlock"); fd == nil {
 		fail("blockmanager.go: func resolveFilterMismatchFromBlock")
